@@ -27,7 +27,7 @@ THEOREMS_OPS = [
     "C29_commit_atomic_partial", "C29_commit_atomic_refuted", "C29_commit_keeps_refs_worktree",
     "C29_pull_atomic_partial", "C29_pull_atomic_refuted", "C29_pull_unrepaired_refuted",
     "C29_pull_no_late_refusal", "C29_xstep_atomic_partial",
-    "C29_effects_sound", "C29_fault_single_store_atomic", "C29_fault_prefix_refuted",
+    "C29_effects_sound", "C29_fault_single_store_atomic", "C29_fault_prefix_refuted", "C29_fault_commit_all_refuted",
 ]
 
 MODEL_FILES_OPS = ["Porcelain.v", "PorcelainOps.v"]
